@@ -415,7 +415,7 @@ static void mitm_hs_gen(Plan *p, uint64_t base_seed, uint64_t variant, int tier)
 	for (int i = 0; i < p->nfaults; i++) gen_fault_hs(&p->faults[i], &v, &tw->o);
 }
 
-static int additive(const Fault *f)
+__attribute__((unused)) static int additive(const Fault *f)
 {
 	return f->kind == F_DUP || f->kind == F_INJECT || f->kind == F_REPLAY || (f->kind == F_EXTEND && !f->bit);
 }
@@ -478,13 +478,10 @@ static void mitm_hs_run(const Plan *p, RunResult *r)
 	const char *k0 = g_fault_names[p->faults[0].kind];
 	/* clause 1 */
 	if (o.hs_ret[0] == 1 && o.hs_ret[1] == 1) {
-		int excused = 1;
-		for (int i = 0; i < p->nfaults; i++) {
-			const Fault *f = &p->faults[i];
-			if (!g_frt[i].fired) continue;
-			int rcv_side = f->dir == DIR_C2S ? 1 : 0;
-			if (!additive(f) || g_frt[i].inj_off < o.rd_at_done[rcv_side]) excused = 0;
-		}
+		/* both completed: a violation exactly if the net effect of the faults changed any byte that a
+		 * receiver consumed during its handshake.  (Faults that cancel each other, and records added
+		 * after the receiver had completed, leave that prefix identical.) */
+		int excused = !o.hs_stream_tampered[0] && !o.hs_stream_tampered[1];
 		if (!excused) {
 			rr_violation(r, "both_complete", "proto=%s mutual=%d fault=%s dir=%d rec=%d off=%d bit=%d region=%s: client and server both completed",
 				g_proto_names[p->proto], (int)p->mutual, k0, p->faults[0].dir, (int)p->faults[0].rec,
@@ -673,8 +670,10 @@ static void mitm_data_run(const Plan *p, RunResult *r)
 			return;
 		}
 	}
-	/* 2. detection: nothing at or after the start of a modified record may be delivered */
-	for (int i = 0; i < p->nfaults; i++) {
+	/* 2. detection: nothing at or after the start of a modified record may be delivered.
+	 * Only for single-fault plans: two faults can cancel (the same bit flipped twice) or shadow
+	 * each other, and then the record is legitimately delivered; prefix safety above covers those. */
+	for (int i = 0; i < p->nfaults && p->nfaults == 1; i++) {
 		const Fault *f = &p->faults[i];
 		if (!g_frt[i].fired) continue;
 		int demand = 0;
